@@ -64,10 +64,24 @@ class State:
 _ASSUME = [None]  # condition under which the state being checked arises (a branch of a conditional update)
 
 
+def _boundary(pt, k):
+    """every third trial places the spans a hair above / below / exactly at a whole number of pixels: the places where a
+    pixel count changes (a tolerance in the rounding, a truncation) and random values never land"""
+    if k % 3 != 1:
+        return
+    r = pt.rng
+    for px in ("p", "p2"):
+        pt.syms[px] = r.choice((0.1, 0.25, 0.3, 0.7, 1.0)) if r.random() < 0.5 else r.uniform(0.05, 2.0)
+    for span in ("db", "dq", "dc", "dr"):
+        px = pt.syms[r.choice(("p", "p2"))]
+        pt.syms[span] = px * (r.randint(1, 6) + r.choice((1e-7, -1e-7, 3e-6, -3e-6, 0.0, 1e-10)))
+
+
 def _always(cond, trials=80, seed=0, input_fn=None):
     if _ASSUME[0] is not None:
         cond, trials = sym.Or(sym.Not(_ASSUME[0]), cond), 600
-    ok, w = symeval.equivalent(cond, sym.TRUE, trials=trials, seed=seed, positive_syms=POS, nrows=3, input_fn=input_fn)
+    ok, w = symeval.equivalent(cond, sym.TRUE, trials=trials, seed=seed, positive_syms=POS, nrows=3, input_fn=input_fn,
+                               sym_fn=_boundary)
     return ok, w
 
 
